@@ -35,6 +35,9 @@ impl MultiYamlConverter {
 
     pub fn convert_list(&self, vals: &Vec<Rc<Val>>, mut w: &mut dyn Write) -> ConvertResult {
         for val in vals {
+            // Every document needs its own start marker. Without it the
+            // documents run together and are read back as a single one.
+            writeln!(w, "---")?;
             self.0.write(val.as_ref(), &mut w)?;
         }
         Ok(())
